@@ -9,10 +9,13 @@ import (
 	"sort"
 	"strings"
 
+	"github.com/ethereum/go-ethereum/common"
 	"github.com/holiman/uint256"
 	"github.com/rigochain/rigo-go/ctrlers/gov/proposal"
 	"github.com/rigochain/rigo-go/ctrlers/stake"
 	rctypes "github.com/rigochain/rigo-go/ctrlers/types"
+	"github.com/rigochain/rigo-go/ledger"
+	rtypes "github.com/rigochain/rigo-go/types"
 	"github.com/rigochain/rigo-go/types/crypto"
 	abcitypes "github.com/tendermint/tendermint/abci/types"
 	tmjson "github.com/tendermint/tendermint/libs/json"
@@ -55,6 +58,7 @@ type Replica struct {
 	InBlock     bool
 	emit        func(J)
 	LastUpdates []abcitypes.ValidatorUpdate
+	CurHdr      *BlockHeader
 	OpN         int // index of the next op (events carry it as "op")
 	// QueryAfterCommit: take the committed projection through Query after every Commit
 	QueryAfterCommit bool
@@ -134,6 +138,7 @@ func (r *Replica) Exec(op *Op) J {
 		}
 		ev["votes"], ev["evidence"] = votes, evid
 		var resp abcitypes.ResponseBeginBlock
+		r.CurHdr = op.Hdr
 		pm := Call(func() { resp = r.App.Core.BeginBlock(op.Hdr.Request()) })
 		ev["panic"] = pm
 		ev["resp"] = J{"events": projEvents(resp.Events, r.KR)}
@@ -146,8 +151,16 @@ func (r *Replica) Exec(op *Op) J {
 		ev["ev"] = "DeliverTx"
 		bz := unhex(op.Tx)
 		ev["tx"] = r.TxMeta(bz, op.Auth)
+		var ref *RefResult
+		var refTx *rctypes.Trx
+		if r.Opts.EVM && r.CurHdr != nil {
+			Call(func() { ref, refTx = r.reference(bz) })
+		}
 		var resp abcitypes.ResponseDeliverTx
 		pm := Call(func() { resp = r.App.Core.DeliverTx(abcitypes.RequestDeliverTx{Tx: bz}) })
+		if ref != nil && pm == "" {
+			Call(func() { r.addReference(ev, ref, refTx, resp) })
+		}
 		ev["panic"] = pm
 		ev["resp"] = J{"ok": pm == "" && resp.Code == 0, "code": int(resp.Code), "gasWanted": LimbsU64(uint64(resp.GasWanted)),
 			"gasUsed": LimbsU64(uint64(resp.GasUsed)), "data": r.KR.Tok(resp.Data), "dataLen": len(resp.Data), "log": clipLog(resp.Log),
@@ -576,3 +589,62 @@ func (r *Replica) QueryAll(h int64) J {
 
 // HexTx is a helper for generators.
 func HexTx(bz []byte) string { return hex.EncodeToString(bz) }
+
+// reference runs the C17 reference for an EVM-executed transaction (nil otherwise).
+func (r *Replica) reference(bz []byte) (*RefResult, *rctypes.Trx) {
+	tx := &rctypes.Trx{}
+	if tx.Decode(bz) != nil || len(tx.From) != 20 || len(tx.To) != 20 {
+		return nil, nil
+	}
+	vv := r.App.Core.VerifView()
+	// which transactions the reference EVM executes: contract transactions, and plain transfers to an
+	// address that has code in the EVM world (decided on the EVM state, not on the native account's marker)
+	isEvm := tx.Type == rctypes.TRX_CONTRACT
+	if tx.Type == rctypes.TRX_TRANSFER {
+		if st := vv.EVM.VerifStateCopy(); st != nil {
+			var ad common.Address
+			copy(ad[:], tx.To)
+			isEvm = st.GetCodeSize(ad) > 0
+		}
+		if acct := vv.Acct.FindAccount(tx.To, true); acct != nil && acct.Code != nil {
+			isEvm = true
+		}
+	}
+	if !isEvm {
+		return nil, nil
+	}
+	var proposer []byte
+	if r.CurHdr.Proposer != "" {
+		proposer = unhex(r.CurHdr.Proposer)
+	}
+	gp := vv.Gov.GetGovParams()
+	return ReferenceRun(r.App, tx, proposer, r.CurHdr.H, BlockTime(r.CurHdr.H).Unix(), gp.GasPrice().ToBig(), tmtypes.Tx(bz).Hash(), vv.TxsCnt), tx
+}
+
+func (r *Replica) addReference(ev J, ref *RefResult, tx *rctypes.Trx, resp abcitypes.ResponseDeliverTx) {
+	addrs := map[string][]byte{}
+	r.App.Core.VerifView().Acct.VerifLedger().VerifConsensusView(func(k ledger.LedgerKey, ac *rctypes.Account) {
+		addrs[r.KR.Name(ac.Address)] = append([]byte{}, ac.Address...)
+	})
+	for _, ad := range ref.Touched {
+		addrs[r.KR.Name(ad[:])] = append([]byte{}, ad[:]...)
+	}
+	p := RefProjection(ref, r.KR, addrs)
+	implLogs := 0
+	for _, e := range resp.Events {
+		if e.Type == "evm" {
+			for _, a := range e.Attributes {
+				if string(a.Key) == "contract" {
+					implLogs++
+				}
+			}
+		}
+	}
+	p["ok"], p["err"], p["ret"], p["retLen"] = ref.OK, clipLog(ref.VMErr), r.KR.Tok(ref.Ret), len(ref.Ret)
+	p["gasUsed"], p["logs"], p["implLogs"] = LimbsU64(ref.GasUsed), ref.Logs, implLogs
+	p["create"] = rtypes.IsZeroAddress(tx.To)
+	ev["ref"] = p
+	if ref.OK {
+		ev["evmBurn"] = LimbsBig(ref.Burn)
+	}
+}
